@@ -220,7 +220,7 @@ package node
 // reinitialisation fails only if the file does not decode or a store / pool / hash step fails - never because one of
 // the replayed messages is refused (a recorded log contains re-delivered messages)
 //@   erroronly[C20.replay.tolerant] Unmarshal IsExist Marshal CalcStartReInitDKGMessageHash PutOperation GetFSMInstance Dump SaveFSM
-//@   ensures[C09.skip.restore] s.SkipCommKeysVerification == old(s.SkipCommKeysVerification)
+//@   ensures[C09.skip.restore,C10.skip.restore] s.SkipCommKeysVerification == old(s.SkipCommKeysVerification)
 //@   ensures $mayWrite
 //@   ensures unchanged("BaseNodeService.userName", "BaseNodeService.state", "BaseNodeService.storage", "BaseNodeService.ctx")
 
